@@ -33,10 +33,11 @@
      per entry the view of the rewritten entry is exactly the answer of Transform.v's transformer.
    Partial / outside:
    * transform_wf is `_partial`: acl set and migrate are not covered (their chunks carry owner names of
-     unbounded length); expanding a solid entry (s.entries(password): decrypt, decompress, parse) and
-     re-creating it (SolidEntryBuilder) are parameters `expand` / `rebuild` with the hypotheses that
-     expanded entries are writable and that rebuilding writable entries gives a writable solid entry
-     (C14_build_solid_writable is that statement for the pipeline model); append/update/concat of the
+     unbounded length); expanding a solid entry (s.entries(password): decrypt, decompress, parse) is a
+     parameter `expand` with the hypothesis that the expanded entries are writable (for a compressed or
+     encrypted solid entry the recogniser cannot look inside, so this is a property of the archive's
+     content); re-creating the solid entry is a parameter `rebuild` in C14_transform_wf_partial and the
+     pipeline's SolidEntryBuilder in C14_transform_wf_pipeline_partial; append/update/concat of the
      CLI are covered only through C14_rewrite_wf (re-writing decoded entries) and the check;
    * the hypotheses `writable` / `writable_spec` / `strict_ctx` / `small_pieces` are premises: that the
      CLI only produces such inputs (sanitised non-empty names, PHC strings from the password-hash crate,
@@ -463,3 +464,41 @@ Check C14_transform_tokens_satisfiable :
   (forall e m xs cs, ex_hdr_tok (with_extra_chunks (with_xattrs (with_metadata e m) xs) cs) = ex_hdr_tok e) /\
   (forall e m xs cs, ex_content_tok (with_extra_chunks (with_xattrs (with_metadata e m) xs) cs) = ex_content_tok e).
 Print Assumptions C14_transform_tokens_satisfiable.
+
+Theorem C14_rebuild_solid_writable :
+  forall (E : encryption -> bytes -> bytes -> bytes) (compress : compression -> N -> list bytes -> list bytes),
+  (forall (a : encryption) (k b : bytes), len16 b -> len16 (E a k b)) ->
+  forall (cfg : config) (ctx : cctx) (extra : list chunk) (inner : list normal_entry),
+  compress_small compress -> strict_ctx ctx -> Forall sextra_ok extra -> Forall writable_normal inner ->
+  writable_solid (build_solid E compress cfg ctx extra (solid_writes inner)).
+Proof. exact rebuild_solid_writable. Qed.
+Check C14_rebuild_solid_writable :
+  forall (E : encryption -> bytes -> bytes -> bytes) (compress : compression -> N -> list bytes -> list bytes),
+  (forall (a : encryption) (k b : bytes), len16 b -> len16 (E a k b)) ->
+  forall (cfg : config) (ctx : cctx) (extra : list chunk) (inner : list normal_entry),
+  compress_small compress -> strict_ctx ctx -> Forall sextra_ok extra -> Forall writable_normal inner ->
+  writable_solid (build_solid E compress cfg ctx extra (solid_writes inner)).
+Print Assumptions C14_rebuild_solid_writable.
+
+Theorem C14_transform_wf_pipeline_partial :
+  forall (E : encryption -> bytes -> bytes -> bytes) (compress : compression -> N -> list bytes -> list bytes),
+  (forall (a : encryption) (k b : bytes), len16 b -> len16 (E a k b)) -> compress_small compress ->
+  forall (hdr_tok content_tok : normal_entry -> bytes) (expand : solid_entry -> res (list normal_entry)),
+  (forall (s : solid_entry) (inner : list normal_entry), writable_solid s -> expand s = Ok inner -> Forall writable_normal inner) ->
+  forall (lvl : N) (ctx : cctx), strict_ctx ctx ->
+  forall (keep pw : bool) (c : Transform.cmd) (nfiles : N) (sel : bytes -> bool) (a a' : bytes),
+  cmd_ok c -> wf_archive a = true ->
+  run_edit hdr_tok content_tok expand (rebuild_pipeline E compress lvl ctx) keep pw c nfiles sel a = Ok a' ->
+  wf_archive a' = true.
+Proof. exact transform_wf_pipeline. Qed.
+Check C14_transform_wf_pipeline_partial :
+  forall (E : encryption -> bytes -> bytes -> bytes) (compress : compression -> N -> list bytes -> list bytes),
+  (forall (a : encryption) (k b : bytes), len16 b -> len16 (E a k b)) -> compress_small compress ->
+  forall (hdr_tok content_tok : normal_entry -> bytes) (expand : solid_entry -> res (list normal_entry)),
+  (forall (s : solid_entry) (inner : list normal_entry), writable_solid s -> expand s = Ok inner -> Forall writable_normal inner) ->
+  forall (lvl : N) (ctx : cctx), strict_ctx ctx ->
+  forall (keep pw : bool) (c : Transform.cmd) (nfiles : N) (sel : bytes -> bool) (a a' : bytes),
+  cmd_ok c -> wf_archive a = true ->
+  run_edit hdr_tok content_tok expand (rebuild_pipeline E compress lvl ctx) keep pw c nfiles sel a = Ok a' ->
+  wf_archive a' = true.
+Print Assumptions C14_transform_wf_pipeline_partial.
